@@ -149,6 +149,14 @@ def auto_discharge(f, b, s):
                     return "unwrap dominated by the true edge of is_some/is_ok of the same value"
                 if is_call(cnd, ["Option::is_none", "Result::is_err"]) and peel(cnd[2][0]) == v and b.edge_dominates(bi, tf, c.bb):
                     return "unwrap dominated by the false edge of is_none/is_err of the same value"
+        if c.matches(["str::split_at", "Index::index"]) and len(c.args) == 2:
+            # slicing a string at the position memchr found an ASCII needle in that same string: in range and on a char boundary
+            recv = peel(c.args[0])
+            poss = [x for x in subterms(c.args[1]) if isinstance(x, tuple) and x and x[0] == "call" and is_call(x, ["find_first_occurence", "memchr", "memchr2", "memchr3", "memchr::memchr", "memchr::memchr2", "memchr::memchr3"])]
+            if len(poss) == 1 and ("str" in c.callee_args) and peel(poss[0][2][0] if is_call(poss[0], "find_first_occurence") else poss[0][2][-1], transparent=["str::as_bytes", "String::as_bytes"]) == recv:
+                only_pos = [x for x in subterms(c.args[1]) if isinstance(x, tuple) and x and x[0] == "call" and x is not poss[0] and x != poss[0]]
+                if not only_pos:
+                    return "string sliced at the memchr position of an ASCII needle found in the same string"
         if c.matches(["Index::index", "IndexMut::index_mut"]) and len(c.args) == 2:
             coll, idx = peel(c.args[0]), peel(c.args[1])
 
